@@ -471,6 +471,14 @@ fn gen_c12(rng: &mut Prng, seed: u64, thorough: bool) -> Trace {
         }
         steps.push(Step::Prove { node: 0, entry, secret, index, limit, id, ext, signal, path_len, dir_tweak, truncate, reader, writer });
     }
+    // a prover whose tree depth is not the circuit's (configuration mismatch): must be refused
+    if rng.chance(1, 2) {
+        let m = members[0].clone();
+        let lim = limit_u64(&m);
+        let depth = *rng.pick(&[1usize, 2, 10, 19, 21, 20]);
+        let at = rng.usize_below(steps.len()) + 1;
+        steps.insert(at, Step::ProveAlt { depth, secret: m.secret, index: rng.below(1 << 20), limit: m.limit, id: Fr::from(gen_id(rng, lim)), ext: gen_ext(rng), signal: gen_signal(rng) });
+    }
     Trace { prop: "C12".into(), seed, nodes, window: 4, members, log, steps }
 }
 
